@@ -15,7 +15,6 @@ use libtw2_net::Timestamp;
 use serde_json::json;
 use serde_json::Value;
 use std::collections::BTreeMap;
-use std::convert::Infallible;
 use verif_harness::catch;
 use verif_harness::hex_short;
 use verif_harness::netsim::classify;
@@ -34,7 +33,14 @@ use verif_harness::Warnings;
 const CONNECT_TOKEN: &[u8; 12] = b"\x10\x00\x00\x01TKEN\xff\xff\xff\xff";
 const CONNECT_PLAIN: &[u8; 4] = b"\x10\x00\x00\x01";
 
+/// Injected send failure (the socket refused the datagram).
+#[derive(Debug)]
+struct SendFail;
+
 struct NetCb {
+    /// fault injection: every `send` during the current call fails
+    fail_sends: bool,
+    failed_sends: u32,
     now_us: u64,
     sent: Vec<(u8, Vec<u8>)>,
     rng: Rng,
@@ -43,14 +49,18 @@ struct NetCb {
 }
 
 impl net::Callback<u8> for NetCb {
-    type Error = Infallible;
+    type Error = SendFail;
     fn secure_random(&mut self, buffer: &mut [u8]) {
         self.calls += 1;
         self.rng.fill(buffer);
         self.randoms.push(buffer.to_vec());
     }
-    fn send(&mut self, addr: u8, data: &[u8]) -> Result<(), Infallible> {
+    fn send(&mut self, addr: u8, data: &[u8]) -> Result<(), SendFail> {
         self.calls += 1;
+        if self.fail_sends {
+            self.failed_sends += 1;
+            return Err(SendFail);
+        }
         if self.calls > 100_000 {
             panic!("{}", BUDGET_PANIC);
         }
@@ -111,6 +121,8 @@ struct World {
     ended: bool,
     pids_ever: Vec<u32>,
     stats: BTreeMap<&'static str, u64>,
+    inject_send_failures: bool,
+    fault_rng: Rng,
 }
 
 impl World {
@@ -119,7 +131,7 @@ impl World {
         World {
             net: if accepting { Net::server() } else { Net::client() },
             accepting,
-            cb: NetCb { now_us: START_US, sent: Vec::new(), rng: Rng::new(seed), randoms: Vec::new(), calls: 0 },
+            cb: NetCb { fail_sends: false, failed_sends: 0, now_us: START_US, sent: Vec::new(), rng: Rng::new(seed), randoms: Vec::new(), calls: 0 },
             addrs: (0..naddr)
                 .map(|i| Addr {
                     remote: c6::Connection::new(),
@@ -139,6 +151,8 @@ impl World {
             ended: false,
             pids_ever: Vec::new(),
             stats: BTreeMap::new(),
+            inject_send_failures: rng.chance(1, 2),
+            fault_rng: Rng::new(verif_harness::mix(seed, 0xfa17)),
         }
     }
     fn stat(&mut self, k: &'static str) {
@@ -239,7 +253,7 @@ impl World {
             let (it, res) = net.feed(cb, &mut warn, a as u8, data, &mut buf[..]);
             match res {
                 Ok(()) => {}
-                Err(e) => match e {},
+                Err(SendFail) => {}
             }
             drain_net(it)
         });
@@ -330,6 +344,7 @@ impl World {
     }
 
     /// An application call on Net for the peer of address `a`, mirrored on the reference.
+    #[allow(clippy::too_many_arguments)]
     fn app<FN, FR>(&mut self, a: usize, site: &'static str, desc: Value, fnet: FN, fref: FR, removes_peer: bool)
     where
         FN: FnOnce(&mut Net<u8>, &mut NetCb, PeerId),
@@ -339,9 +354,13 @@ impl World {
         let pid = PeerId(self.addrs[a].pid.expect("live peer"));
         self.cb.calls = 0;
         self.cb.randoms.clear();
+        // fault injection: the socket refuses the close datagram of a disconnect/reject
+        let inject = removes_peer && self.inject_send_failures && self.fault_rng.chance(1, 4);
+        self.cb.fail_sends = inject;
         let net = &mut self.net;
         let cb = &mut self.cb;
         let r = catch(|| fnet(net, cb, pid));
+        self.cb.fail_sends = false;
         let randoms = self.cb.randoms.clone();
         let sent = self.take_sent(Some(a), site);
         let net_out = r.map(|()| (Vec::new(), sent)).map_err(|p| p.msg_sig);
@@ -349,7 +368,17 @@ impl World {
             fref(c, cb);
             Vec::new()
         });
-        self.compare(a, site, net_out, ref_out);
+        if inject {
+            self.stat("send_failures_injected");
+            // the datagram is lost with the failing socket; what must still hold is that the peer is gone
+            match (&net_out, &ref_out) {
+                (Ok((_, s)), Ok(_)) if s.is_empty() => {}
+                (Ok(_), Ok(_)) => self.finding("divergence", site, "datagram-although-send-failed", json!({"addr": a})),
+                _ => self.compare(a, site, net_out, ref_out),
+            }
+        } else {
+            self.compare(a, site, net_out, ref_out);
+        }
         if removes_peer && !self.ended {
             self.addrs[a].pid = None;
             self.addrs[a].pending = false;
@@ -364,7 +393,7 @@ impl World {
         let cb = &mut self.cb;
         let r = catch(|| {
             for e in net.tick(cb) {
-                match e {}
+                let SendFail = e;
             }
         });
         let sent = std::mem::take(&mut self.cb.sent);
@@ -618,7 +647,7 @@ fn one_history(ctx: &mut Ctx, rng: &mut Rng, moves: usize) {
                             let (pid, res) = net.connect(cb, a as u8);
                             match res {
                                 Ok(()) => {}
-                                Err(e) => match e {},
+                                Err(SendFail) => {}
                             }
                             pid
                         });
